@@ -34,7 +34,14 @@ def norm(t):
 
 
 def _is_next(callee):
-    return ' as core::iter::Iterator>::next' in callee
+    return ' as core::iter::Iterator>::next' in callee or re.search(r'<impl core::iter::Iterator for core::ops::Range<\w+>>::next$', callee) is not None
+
+
+def _len_of(t):
+    """X if t is `X.len()` of a soroban Vec / slice"""
+    if t[0] == 'call' and (re.search(r'soroban_sdk::Vec::<.*>::len$', t[1]) or t[1].endswith(']>::len')) and t[2]:
+        return t[2][0]
+    return None
 
 
 def _strip_iter(t):
@@ -44,6 +51,12 @@ def _strip_iter(t):
                                or t[1].endswith('::iter')):
             t = t[2][0]
             continue
+        if t[0] == 'struct' and t[1].endswith('ops::Range'):
+            # `0..X.len()`: the indices of X, in order
+            f = dict(t[2])
+            x = _len_of(f.get('end', ('u',)))
+            if x is not None and f.get('start', ('u',))[0] == 'const' and re.match(r'^0_', f['start'][1]):
+                return ('indices', x)
         return t
 
 
@@ -135,6 +148,14 @@ def _norm0(t):
             return ('seq',)
         if callee.endswith('soroban_sdk::String::from_str') or callee.endswith('soroban_sdk::Address::from_string'):
             return ('lit', args[-1]) if args[-1][0] in ('const', 'lit') else ('call', callee, args) + tuple(t[3:])
+        m = re.search(r'soroban_sdk::Vec::<.*>::(get|get_unchecked|try_get|try_get_unchecked)$', callee)
+        if m and len(args) == 2 and args[1] == ('elem', ('indices', args[0])):
+            # element at a loop index running over `0..X.len()`: the loop element of X (always present)
+            el = ('elem', args[0])
+            if m.group(1) == 'get':
+                return ('variant', 'core::option::Option', 'Some', (el,))
+            if m.group(1) == 'get_unchecked':
+                return el
         if _is_next(callee):
             li = _loop_init(args[0], _is_next)
             if li:
